@@ -3,6 +3,7 @@
 From RV Require Import Model.Base Model.Spirv Model.Grammar Model.Reflect Model.Decoder Model.Inst
                        Model.Parser Model.Link.
 From RV Require Import Gen.SpirvData Gen.TableData Gen.ReflectData Gen.ParseData.
+From RV Require Gen.RefParams Gen.RefTable Gen.RefSpirv.
 
 Definition core_table : list entry :=
   Eval vm_compute in match resolve_all op_enum core_raw with Some t => t | None => [] end.
@@ -54,3 +55,36 @@ Lemma model_opcodes_match :
   op_value op_enum "SpecConstantOp" = Some OP_SPEC_CONSTANT_OP /\ op_value op_enum "Switch" = Some OP_SWITCH /\
   magic_number = MAGIC.
 Proof. repeat split; vm_compute; reflexivity. Qed.
+
+(** the parser-side tables (kind -> decoder requests, enumerant/bit ->
+    parameter requests, in source order) equal the reference snapshot *)
+Definition ss_list_eqb := list_eqb (pair_eqb str_eqb str_eqb).
+Definition arm_raw_eqb (a b : string * option (list (string * string)) * option string) : bool :=
+  str_eqb (fst (fst a)) (fst (fst b)) && option_eqb ss_list_eqb (snd (fst a)) (snd (fst b))
+  && option_eqb str_eqb (snd a) (snd b).
+Definition args_raw_eqb (a b : string * string * bool * list (string * list (string * string))) : bool :=
+  let '(f1, t1, m1, r1) := a in let '(f2, t2, m2, r2) := b in
+  str_eqb f1 f2 && str_eqb t1 t2 && Bool.eqb m1 m2 && list_eqb (pair_eqb str_eqb ss_list_eqb) r1 r2.
+
+Lemma params_match_ref :
+  list_eqb arm_raw_eqb parse_arms_raw RefParams.parse_arms_raw = true /\
+  list_eqb args_raw_eqb args_raw RefParams.args_raw = true /\
+  list_eqb (pair_eqb (pair_eqb str_eqb str_eqb) Bool.eqb) decode_raw RefParams.decode_raw = true /\
+  ss_list_eqb operand_variants RefParams.operand_variants = true.
+Proof. repeat split; vm_cast_no_check (eq_refl true). Qed.
+
+Definition raw_entry_eqb (a b : raw_entry) : bool :=
+  str_eqb (r_name a) (r_name b) && option_eqb N.eqb (r_number a) (r_number b)
+  && list_eqb opnd_eqb (r_operands a) (r_operands b).
+
+(** opcode numbers, operand kinds and quantifiers of the core table, and the
+    declared enumerant / bit values, equal the reference (capabilities and
+    extensions are C09/C17's concern) *)
+Lemma layout_matches_ref :
+  list_eqb str_eqb kind_names RefTable.kind_names = true /\
+  list_eqb raw_entry_eqb core_raw RefTable.core_raw = true.
+Proof. split; vm_cast_no_check (eq_refl true). Qed.
+
+Lemma values_match_ref :
+  list_eqb enum_values_eqb enums RefSpirv.enums = true /\ list_eqb flags_eqb flags RefSpirv.flags = true.
+Proof. split; vm_cast_no_check (eq_refl true). Qed.
